@@ -595,6 +595,115 @@ def lookups_ens(dom):
             ("C13.archs.type_cache", f"final(self).inv_type_cache({dom})")]
 
 
+EQ_LEMMAS = r"""
+// ---- C16: the relation Archetypes::eq computes (its proved postcondition) is reflexive and
+// symmetric, given that the per-table comparison is (A8: user PartialEq is an equivalence; K-eq:
+// component_eq is pointwise equality of identifiers and cells)
+pub open spec fn vx_archs_eq_spec<R: Registry>(a: Archetypes<R>, b: Archetypes<R>) -> bool {
+    a.raw_archetypes.count() == b.raw_archetypes.count()
+        && forall|k: archetype::IdentifierRef<R>| a@.dom().contains(k) ==> vx_has_equal_partner(#[trigger] a@[k], b@)
+}
+/// A3: a hashbrown table holds finitely many elements; `len()` is their number
+#[verifier::external_body]
+pub proof fn vx_axiom_count<R: Registry>(t: &VxRawTable<R>)
+    ensures exists|ks: Seq<archetype::IdentifierRef<R>>| t.enumerates(ks) && ks.len() == t.count()
+{ }
+/// pigeonhole: an injective map from the elements of a duplicate-free list into the elements of
+/// a duplicate-free list of the same length hits every element
+pub proof fn lemma_injective_onto<K>(a: Seq<K>, b: Seq<K>, g: spec_fn(K) -> K)
+    requires vx_nodup(a), vx_nodup(b), a.len() == b.len(),
+             forall|i: int| 0 <= i < a.len() ==> b.contains(#[trigger] g(a[i])),
+             forall|i: int, j: int| 0 <= i < j < a.len() ==> g(a[i]) != g(a[j]),
+    ensures forall|y: K| b.contains(y) ==> exists|i: int| 0 <= i < a.len() && #[trigger] g(a[i]) == y
+    decreases a.len()
+{
+    if a.len() > 0 {
+        let x = a.last();
+        let gx = g(x);
+        assert(b.contains(g(a[a.len() - 1])));
+        let j = choose|j: int| 0 <= j < b.len() && b[j] == gx;
+        let a1 = a.drop_last();
+        let b1 = b.remove(j);
+        assert(vx_nodup(a1));
+        assert(vx_nodup(b1)) by {
+            assert forall|p: int, q: int| 0 <= p < q < b1.len() implies b1[p] != b1[q] by {
+                let pp = if p < j { p } else { p + 1 };
+                let qq = if q < j { q } else { q + 1 };
+                assert(b1[p] == b[pp] && b1[q] == b[qq]);
+            }
+        }
+        assert forall|i: int| 0 <= i < a1.len() implies b1.contains(#[trigger] g(a1[i])) by {
+            assert(a1[i] == a[i]);
+            assert(b.contains(g(a[i])));
+            let q = choose|q: int| 0 <= q < b.len() && b[q] == g(a[i]);
+            assert(g(a[i]) != g(a[a.len() - 1]));
+            assert(q != j);
+            let qq = if q < j { q } else { q - 1 };
+            assert(b1[qq] == g(a1[i]));
+        }
+        assert forall|i: int, k: int| 0 <= i < k < a1.len() implies g(a1[i]) != g(a1[k]) by { assert(a1[i] == a[i] && a1[k] == a[k]); }
+        lemma_injective_onto(a1, b1, g);
+        assert forall|y: K| b.contains(y) implies exists|i: int| 0 <= i < a.len() && #[trigger] g(a[i]) == y by {
+            let q = choose|q: int| 0 <= q < b.len() && b[q] == y;
+            if q == j { assert(g(a[a.len() - 1]) == y); }
+            else {
+                let qq = if q < j { q } else { q - 1 };
+                assert(b1[qq] == y);
+                assert(b1.contains(y));
+                let i = choose|i: int| 0 <= i < a1.len() && #[trigger] g(a1[i]) == y;
+                assert(a1[i] == a[i]);
+                assert(g(a[i]) == y);
+            }
+        }
+    }
+}
+pub proof fn lemma_archs_eq_reflexive<R: Registry>(a: Archetypes<R>)
+    requires a.wf(), forall|t: archetype::Archetype<R>| #[trigger] vx_tables_eq(t, t),
+    ensures vx_archs_eq_spec(a, a)
+{
+    assert forall|k: archetype::IdentifierRef<R>| a@.dom().contains(k) implies vx_has_equal_partner(#[trigger] a@[k], a@) by {
+        assert(a@[k].key() == k);
+        assert(a@.dom().contains(k) && vx_key_bits(k) == vx_key_bits(a@[k].key()) && vx_tables_eq(a@[k], a@[k]));
+    }
+}
+pub proof fn lemma_archs_eq_symmetric<R: Registry>(a: Archetypes<R>, b: Archetypes<R>)
+    requires a.wf(), b.wf(), vx_archs_eq_spec(a, b),
+             forall|t: archetype::Archetype<R>, u: archetype::Archetype<R>| #[trigger] vx_tables_eq(t, u) ==> vx_tables_eq(u, t),
+    ensures vx_archs_eq_spec(b, a)
+{
+    a.lemma_single_table();
+    vx_axiom_count(&a.raw_archetypes);
+    vx_axiom_count(&b.raw_archetypes);
+    let ka = choose|ks: Seq<archetype::IdentifierRef<R>>| a.raw_archetypes.enumerates(ks) && ks.len() == a.raw_archetypes.count();
+    let kb = choose|ks: Seq<archetype::IdentifierRef<R>>| b.raw_archetypes.enumerates(ks) && ks.len() == b.raw_archetypes.count();
+    let g = |k: archetype::IdentifierRef<R>| choose|k2: archetype::IdentifierRef<R>| b@.dom().contains(k2) && vx_key_bits(k2) == vx_key_bits(a@[k].key()) && vx_tables_eq(a@[k], #[trigger] b@[k2]);
+    assert forall|i: int| 0 <= i < ka.len() implies kb.contains(#[trigger] g(ka[i])) && vx_key_bits(g(ka[i])) == vx_key_bits(ka[i]) && vx_tables_eq(a@[ka[i]], b@[g(ka[i])]) by {
+        assert(ka.contains(ka[i]));
+        assert(a@.dom().contains(ka[i]));
+        assert(vx_has_equal_partner(a@[ka[i]], b@));
+        assert(a@[ka[i]].key() == ka[i]);
+        assert(b@.dom().contains(g(ka[i])));
+    }
+    assert forall|i: int, j: int| 0 <= i < j < ka.len() implies g(ka[i]) != g(ka[j]) by {
+        assert(ka.contains(ka[i]) && ka.contains(ka[j]));
+        if g(ka[i]) == g(ka[j]) {
+            assert(vx_key_bits(ka[i]) == vx_key_bits(ka[j]));
+            assert(ka[i] == ka[j]);
+        }
+    }
+    lemma_injective_onto(ka, kb, g);
+    assert forall|k2: archetype::IdentifierRef<R>| b@.dom().contains(k2) implies vx_has_equal_partner(#[trigger] b@[k2], a@) by {
+        assert(kb.contains(k2));
+        let i = choose|i: int| 0 <= i < ka.len() && #[trigger] g(ka[i]) == k2;
+        let k = ka[i];
+        assert(ka.contains(k));
+        assert(b@[k2].key() == k2);
+        assert(vx_tables_eq(a@[k], b@[k2]));
+        assert(a@.dom().contains(k) && vx_key_bits(k) == vx_key_bits(b@[k2].key()) && vx_tables_eq(b@[k2], a@[k]));
+    }
+}
+"""
+
 EQ_STEP = r'''proof {
                 let k = vx_keys1@[vx_i1 as int];
                 assert(vx_keys1@.contains(k));
@@ -1094,6 +1203,7 @@ def build(only=None, name="archs"):
                   Hint("before", EQ_END, anchor=r"return true;")],
            props=["C16"]),
     ])
+    u.text(EQ_LEMMAS)
     u.for_rewrites += [
         (r"for (\w+) in source\.iter\(\)",
          "let vx_keys# = source.raw_archetypes.vx_keys(); let vx_n# = source.raw_archetypes.vx_len(vx_keys#); let mut vx_i#: usize = 0;",
